@@ -1,5 +1,7 @@
 package packets
 
+import "bytes"
+
 // C27: every decoder is total on every byte string of length 0..N, for protocol versions 3, 4, 5.
 // A Go panic (index/slice out of range, nil map ...) raised by the engine exactly where the runtime
 // would raise it ends the path as a violation "no-panic".
@@ -101,4 +103,31 @@ func VerifC27Primitives() {
 		vAssert("byte-offset", o5 == off+1 && o5 <= n)
 	}
 	vReach("end")
+}
+
+// VerifC27LongProps: property sections longer than 255 bytes, where string lengths need both length bytes and
+// offsets pass the one-byte range: HEAD symbolic bytes, a filler of 'a' of every length FILL..FILL+FILLN (default 250..257), TAIL symbolic
+// bytes, decoded as the properties of a PUBLISH. The decoder must return (accepting or rejecting) within a step
+// budget - a decoder that loops on some input is not total - and must not panic.
+func VerifC27LongProps() {
+	head := vBytes(vParam("HEAD", 5))
+	fill := vParam("FILL", 250) + vLen(vParam("FILLN", 7))
+	tail := vBytes(vParam("TAIL", 3))
+	var body []byte
+	body = append(body, head...)
+	for i := 0; i < fill; i++ {
+		body = append(body, 'a')
+	}
+	body = append(body, tail...)
+	n := len(body) // 258..265: a two-byte variable byte integer
+	sec := append([]byte{byte(n&0x7f) | 0x80, byte(n >> 7)}, body...)
+	p := new(Properties)
+	vTerminates("properties-decode-terminates", 200)
+	_, err := p.Decode(Publish, bytes.NewBuffer(sec))
+	vTerminated()
+	if err == nil {
+		vReach("accepted")
+	} else {
+		vReach("rejected")
+	}
 }
